@@ -321,10 +321,20 @@ theorem presentation_complete (H : List ByteArray → ℤ) (hH : ∀ bs, 0 ≤ H
     obtain ⟨seen', hcp⟩ := commonPass_succeeds (keys common) prf (keys common) []
       (fun a ha => by rw [hm, lookup_map_self _ un a (hcommon a ha)]; rfl)
       (fun a v h => by simp [lookup] at h)
+    have hany : nes.any (fun p => !un.contains p.pred.attr) = false := by
+      rw [List.any_eq_false]
+      intro p hp
+      have hpm : p.pred ∈ nes.map (·.pred) := List.mem_map_of_mem hp
+      rw [hpr] at hpm
+      simp only [List.mem_map] at hpm
+      obtain ⟨pt, hpt, hpe⟩ := hpm
+      have := (hpreds pt hpt).1
+      rw [hpe] at this
+      simpa using this
     simp only [verify, verifyTranscript, List.length_cons, List.length_nil, bne_self_eq_false,
       Bool.false_eq_true, if_false, allPairsConsistent, hcons, Bool.and_self, Bool.not_true,
       verifyLoop, Bool.false_and, Bool.and_false, Bool.not_false, ← hun, hall, hcp, Outcome.bind_ok,
-      verifyPrimaryProof, hve, hvn, Outcome.map_ok]
+      verifyPrimaryProof, hve, hany, hvn, Outcome.map_ok]
     have hitems : ([] ++ List.map (fun g => Item.bytes ((addOps enc).enc g))
           (init'.t :: List.flatMap (fun x => x.tauList) nis') ++ [] ++
         List.map Item.bytes (List.map (addOps enc).enc (proverCList init' nis')) ++
@@ -413,7 +423,18 @@ theorem cred_complete (m : OvfMode) (common : List (String × ℤ)) (V : String 
   subst hnn
   refine ⟨prf, nes, hf, hfp, ?_, ?_, ?_⟩
   · rw [hvo, hpk, ← hun]
-    simp only [verifyPrimaryProof, hve, Outcome.bind_ok, hvn, Outcome.map_ok, proverTaus]
+    have hany : nes.any (fun p => !ci.unrevealed.contains p.pred.attr) = false := by
+      rw [List.any_eq_false]
+      intro p hp
+      have hpm : p.pred ∈ nes.map (·.pred) := List.mem_map_of_mem hp
+      rw [hpr] at hpm
+      simp only [List.mem_map] at hpm
+      obtain ⟨pt, hpt, hpe⟩ := hpm
+      have := (hpreds pt hpt).1
+      rw [hpe] at this
+      simpa using this
+    simp only [verifyPrimaryProof, hve, Outcome.bind_ok, hany, Bool.false_eq_true, if_false, hvn,
+      Outcome.map_ok, proverTaus]
   · simp only [pairConsistent, hrevv, keys_map_self, hrev, sameSet_self, hpr, hreq, predSameSet_self,
       Bool.and_self]
   · intro a ha
